@@ -16,7 +16,7 @@ RULE = ("Hypothesis draws a series (10 classes, n 4..200, |v|+|c| <= 1e4), a gap
         "(integer a, b) -> the same line at every cell incl. gaps, every variant; (2) f(y+c, nodata+c) == f(y, nodata)+c with the same "
         "lambda; (3) f(reversed y) == reversed f(y) with the same lambda for gu, pgu, optv, optvp, optvplc. A unit difference is "
         "accepted only where an independent reference curve sits within the tie width of a half, a different lambda only if both are "
-        "reference near-minimisers. Non-trivial: c != 0 / non-palindromic and the series is not itself linear (2-3); any linear "
+        "reference near-minimisers. The prange cube driver ws2doptvplc_tyx is held to relation (2) as well. Non-trivial: c != 0 / non-palindromic and the series is not itself linear (2-3); any linear "
         "series (1); distinct by content hash.")
 ASSUME = ["LAPACK reference curve only used to adjudicate unit differences (rounding ties)"]
 
@@ -159,7 +159,46 @@ def sub_reverse(case, rec=None):
     return _adjudicate("%s reversal: f(y) vs reversed f(reversed y)" % variant, variant, y, valid, prm, lam, o1, np.asarray(o2)[::-1], rec)
 
 
-SUBS = {"linear": sub_linear, "offset": sub_offset, "reverse": sub_reverse}
+def sub_offset_tyx(case, rec=None):
+    """The prange cube driver (grid chosen from the pixel's own lag-1 correlation) must commute with offsets, too."""
+    from hdc.algo.ops.ws2doptvplc import ws2doptvplc_tyx
+    from harness.util import call
+
+    pix = np.array(case["pixels"], dtype="float64")
+    vm = np.array(case["valid"], dtype=bool)
+    nd, c, p = int(case["nodata"]), int(case["c"]), float(case["p"])
+    nr, nc = case["shape"]
+
+    def run(shift):
+        a = (pix + shift).astype("int16")
+        a[~vm] = nd + shift
+        tyx = np.ascontiguousarray(a.T.reshape(a.shape[1], nr, nc))
+        return call("ws2doptvplc_tyx", ws2doptvplc_tyx, tyx, p, nd + shift)
+
+    z1, l1 = run(0)
+    z2, l2 = run(c)
+    why = None
+    for k in range(pix.shape[0]):
+        i, j = divmod(k, nc)
+        v = vm[k]
+        if v.sum() < 2:
+            continue
+        lc = refs.autocorr(pix[k], v)
+        if abs(lc - 0.5) < 1e-6:
+            why = why or "lc_at_threshold"
+            continue
+        prm = {"p": p, "lc": lc}
+        w = _same_lopt("ws2doptvplc_tyx offset c=%d pixel %d" % (c, k), "optvplc", pix[k], v, prm, float(l1[i, j]), float(l2[i, j]))
+        if w:
+            why = why or w
+            continue
+        w = _adjudicate("ws2doptvplc_tyx offset c=%d pixel %d: f(y)+c vs f(y+c)" % (c, k), "optvplc", pix[k], v, prm, float(l1[i, j]),
+                        z1[:, i, j].astype(np.int64) + c, z2[:, i, j], rec, shift=c)
+        why = why or w
+    return why
+
+
+SUBS = {"linear": sub_linear, "offset": sub_offset, "reverse": sub_reverse, "offset_tyx": sub_offset_tyx}
 
 
 @st.composite
@@ -234,6 +273,26 @@ def run(ctx):
                  cls=[case["variant"], "gap:" + case["gcls"], "y:" + case["ycls"]])
 
     ctx.given("offset", pair_case(smooth.VARIANTS, ctx.n(120, 200)), ctx.n(900, 12000), fn=f_off)
+
+    @st.composite
+    def tyx_case(draw):
+        nr, nc = draw(st.integers(1, 2)), draw(st.integers(1, 3))
+        nt = draw(st.integers(6, 60))
+        px, vm = [], []
+        for _ in range(nr * nc):
+            px.append(draw(gens.series(n=nt, vmax=4000, classes=["seasonal", "walk", "iid", "step", "flat_spikes"]))["y"])
+            vm.append(draw(gens.gap_mask(nt, min_valid=2))["valid"])
+        return {"shape": [nr, nc], "pixels": px, "valid": vm, "nodata": -5000, "p": draw(gens.pvals),
+                "c": draw(st.one_of(st.integers(-5000, 5000), st.sampled_from([3000, 5000, -4000])))}
+
+    def f_tyx(case):
+        why = sub_offset_tyx(case, rec)
+        if why:
+            rec.discard("offset_tyx", why)
+        rec.case("offset_tyx", case, nontrivial=case["c"] != 0 and why is None, cls=["pixels=%d" % len(case["pixels"]),
+                                                                                    "gaps" if not all(all(v) for v in case["valid"]) else "nogaps"])
+
+    ctx.given("offset_tyx", tyx_case(), ctx.n(200, 3000), fn=f_tyx)
 
     def f_rev(case):
         why = sub_reverse(case, rec)
